@@ -31,7 +31,7 @@ Fixpoint cmp_loop1 (ka kb : list (str * str)) (r : rel) (partial : bool) : optio
   | (k, av) :: t =>
       let bv := get_key k kb in
       let ok := has_key k kb in
-      if str_eqb av bv || (is_star av && negb ok) then cmp_loop1 t kb r partial
+      if (ok && str_eqb av bv) || (is_star av && negb ok) then cmp_loop1 t kb r partial
       else if is_star av then
         (if rel_eqb r RSubset then cmp_loop1 t kb r true else cmp_loop1 t kb RSuperset partial)
       else if is_star bv || negb ok then
